@@ -126,6 +126,7 @@ func allPropsUnsorted() []*propInfo {
 				{ID: "C06.3", Doc: "[dom] dead-lettered xor delivered/rescheduled", Run: ruleC06_3},
 				{ID: "C06.4", Doc: "[dom][who] forward and retire in one step", Run: ruleC06_4},
 				{ID: "C06.5", Doc: "[atoms] nack candidates are outstanding", Run: ruleC06_5},
+				{ID: "C06.6", Doc: "[dep][tab] the record handed to the dead-letter routine describes this delivery (field mapping, scan tags)", Run: ruleC06_6},
 				{ID: "C09.1", Doc: "[K5] (shared) a storage error inside forwarding/retiring aborts the transaction: the two stay one step", Run: ruleC09_1},
 			},
 		},
@@ -215,6 +216,8 @@ func allPropsUnsorted() []*propInfo {
 				{ID: "C09.4", Doc: "[dom] one operation, one transaction", Run: ruleC09_4},
 				{ID: "C09.5", Doc: "[dom] no error after commit in unary handlers", Run: ruleC09_5},
 				{ID: "C09.6", Doc: "[dep] Execute is re-executable (retry has the same effect)", Run: ruleC09_6},
+				{ID: "C09.7", Doc: "[dom] the retrying runner returns its last run's result and re-runs only accepted failures", Run: ruleC09_7},
+				{ID: "C09.8", Doc: "[tab] no error is converted to a gRPC status with code OK", Run: ruleC09_8},
 			},
 		},
 		{
